@@ -185,6 +185,234 @@ def group_refs_xsd(group, refs, ns="urn:t", types=None):
 
 
 # --------------------------------------------------------------------------
+# schemas with named model groups and xs:all  (model: lean/XsdataModel/Gen/Groups.lean)
+#   particle := {"elem":[n,mn,mx]} | {"seq":[mn,mx,kids]} | {"choice":[...]} | {"all":[mn,mx,kids]} | {"ref":[g,mn,mx]}
+#   schema   := {"defs": [[name, particle], ...], "types": [particle, ...]}   (type i = complex type of element r<i>)
+# --------------------------------------------------------------------------
+def gkind(p):
+    return next(k for k in ("elem", "seq", "choice", "all", "ref") if k in p)
+
+
+def gen_gbody(rng, names, refs, depth=0, top=True, allow_all=True, valid=False):
+    """a model group (seq/choice/all) over element names drawn (without replacement) from `names`
+    and references drawn from `refs`; `valid`: keep inside what XSD 1.0 allows for xs:all"""
+    r = rng.random()
+    if not top and (depth >= 2 or r < 0.5):
+        if refs and rng.random() < 0.3:
+            mn, mx = rand_occ(rng)
+            return {"ref": [rng.choice(refs), mn, mx]}
+        if not names:
+            return None
+        n = names.pop(rng.randrange(len(names)))
+        mn, mx = rand_occ(rng)
+        return {"elem": [n, mn, mx]}
+    if top and allow_all and rng.random() < 0.25:
+        kids = []
+        for _ in range(rng.randint(1, 3)):
+            if not names:
+                break
+            n = names.pop(rng.randrange(len(names)))
+            mn, mx = rng.choice([(1, 1), (0, 1)]) if valid or rng.random() < 0.7 else rand_occ(rng)
+            kids.append({"elem": [n, mn, mx]})
+        if not kids:
+            return None
+        mn, mx = rng.choice([(1, 1), (0, 1)]) if valid or rng.random() < 0.8 else rand_occ(rng)
+        return {"all": [mn, mx, kids]}
+    kind = "seq" if rng.random() < 0.55 else "choice"
+    kids = []
+    for _ in range(rng.randint(1, 3)):
+        k = gen_gbody(rng, names, refs, depth + 1, False, allow_all, valid)
+        if k is not None:
+            kids.append(k)
+    if not kids:
+        return None
+    mn, mx = (1, 1) if top and valid and rng.random() < 0.5 else rand_occ(rng)
+    return {kind: [mn, mx, kids]}
+
+
+def gen_gschema(rng, valid=False, dup=False):
+    """1..3 named groups (group k may refer to groups k+1.., so the references are not circular) and
+    2..3 types that refer to them with their own occurrence ranges"""
+    nd = rng.randint(1, 3)
+    pool = list("abcdefghijklmnopq")
+    rng.shuffle(pool)
+    gnames = [f"g{k}" for k in range(nd)]
+    defs = []
+    for k in range(nd):
+        names = [pool.pop() for _ in range(3)] if not dup else list("abc")
+        later = gnames[k + 1:]
+        body = None
+        while body is None:
+            body = gen_gbody(rng, names, later, allow_all=not valid or not later, valid=valid)
+            if body is not None and "all" in body and valid and any("ref" in x for x in body["all"][2]):
+                body = None
+        # the model group of a definition carries no occurrence range of its own
+        kind = gkind(body)
+        if kind != "all" or valid:
+            body = {kind: [1, 1, body[kind][2]]}
+        defs.append([gnames[k], body])
+    all_groups = {n for n, b in defs if "all" in b}
+    types = []
+    for _ in range(rng.randint(2, 3)):
+        names = [pool.pop() for _ in range(2)] if not dup else list("abx")
+        r = rng.random()
+        if r < 0.35:
+            mn, mx = rand_occ(rng)
+            g = rng.choice(gnames)
+            if valid and g in all_groups:
+                mn, mx = rng.choice([(1, 1), (0, 1)])
+            t = {"ref": [g, mn, mx]}
+        else:
+            refs = [g for g in gnames if not (valid and g in all_groups)]
+            t = None
+            while t is None:
+                t = gen_gbody(rng, names, refs or None, allow_all=not valid, valid=valid)
+        types.append(t)
+    return {"defs": defs, "types": types}
+
+
+def gparticle_xsd_body(p, ind, tname):
+    pad = "  " * ind
+    k = gkind(p)
+    if k == "elem":
+        n, mn, mx = p["elem"]
+        return f'{pad}<xs:element name="{n}" type="{tname(n)}"{occ_attrs(mn, mx)}/>\n'
+    if k == "ref":
+        g, mn, mx = p["ref"]
+        return f'{pad}<xs:group ref="{g}"{occ_attrs(mn, mx)}/>\n'
+    tag = {"seq": "sequence", "choice": "choice", "all": "all"}[k]
+    mn, mx, kids = p[k]
+    return f"{pad}<xs:{tag}{occ_attrs(mn, mx)}>\n" + "".join(gparticle_xsd_body(c, ind + 1, tname) for c in kids) + f"{pad}</xs:{tag}>\n"
+
+
+def gschema_xsd(schema, ns="urn:t", types=None, defs_last=False):
+    """XSD text: the named groups, then global elements r0, r1, … whose anonymous complex types have
+    the content models `schema["types"]`"""
+    types = types or {}
+
+    def tname(n):
+        return ELEM_TYPES[types.get(n, "string")][0]
+
+    tns = f' targetNamespace="{ns}" xmlns="{ns}" elementFormDefault="qualified"' if ns else ""
+    out = f'<?xml version="1.0"?>\n<xs:schema xmlns:xs="http://www.w3.org/2001/XMLSchema"{tns}>\n'
+    out += "".join(
+        f' <xs:simpleType name="{u}"><xs:union memberTypes="{members}"/></xs:simpleType>\n'
+        for u, members in UNIONS.items()
+        if u in set(types.values())
+    )
+    gtext = "".join(f' <xs:group name="{g}">\n{gparticle_xsd_body(body, 2, tname)} </xs:group>\n' for g, body in schema["defs"])
+    ttext = "".join(
+        f' <xs:element name="r{i}">\n  <xs:complexType>\n{gparticle_xsd_body(t, 3, tname)}  </xs:complexType>\n </xs:element>\n'
+        for i, t in enumerate(schema["types"])
+    )
+    return out + (ttext + gtext if defs_last else gtext + ttext) + "</xs:schema>\n"
+
+
+def gparticle_names(schema, p, depth=0):
+    """element names of the expansion of `p`, with multiplicity, in document order"""
+    k = gkind(p)
+    if k == "elem":
+        return [p["elem"][0]]
+    if k == "ref":
+        body = dict(map(tuple, schema["defs"])).get(p["ref"][0])
+        return [] if body is None or depth > 8 else gparticle_names(schema, body, depth + 1)
+    out = []
+    for c in p[k][2]:
+        out += gparticle_names(schema, c, depth)
+    return out
+
+
+def sample_gword(rng, schema, p, budget=3, depth=0):
+    """a word of the language of `p` (the children of xs:all in a random order)"""
+
+    def reps(mn, mx):
+        hi = min(mn + budget if mx == MAXSIZE else mx, mn + budget)
+        return rng.randint(mn, max(mn, hi))
+
+    k = gkind(p)
+    if k == "elem":
+        n, mn, mx = p["elem"]
+        return [n] * reps(mn, mx)
+    if k == "ref":
+        g, mn, mx = p["ref"]
+        body = dict(map(tuple, schema["defs"]))[g]
+        out = []
+        for _ in range(reps(mn, mx)):
+            out += sample_gword(rng, schema, body, budget, depth + 1)
+        return out
+    mn, mx, kids = p[k]
+    out = []
+    for _ in range(reps(mn, mx)):
+        if k == "choice":
+            out += sample_gword(rng, schema, rng.choice(kids), budget, depth)
+        else:
+            order = list(kids)
+            if k == "all":
+                rng.shuffle(order)
+            for c in order:
+                out += sample_gword(rng, schema, c, budget, depth)
+    return out
+
+
+def renumber_classes(classes):
+    """like `renumber`, with one table for all the classes of a schema (the ids of a group definition
+    are shared by every class that refers to it); `index` (number of the element declaration, shared
+    by the clones of one declaration) by order of first appearance inside each class"""
+    ids = {}
+
+    def m(i):
+        if i is None or i <= 0:
+            return i
+        if i not in ids:
+            ids[i] = len(ids) + 1
+        return ids[i]
+
+    out = []
+    for sites in classes:
+        idx = {}
+        cls = []
+        for s in sites:
+            path = [[k, m(i), mn, mx] for k, i, mn, mx in s["path"]]
+            cls.append({**s, "index": idx.setdefault(s["index"], len(idx)), "path": path, "choice": m(s["choice"]), "sequence": m(s["sequence"])})
+        out.append(cls)
+    return out
+
+
+def real_schema_classes(xsd: str, upto="ungroup"):
+    """SchemaParser + SchemaMapper + the real ClassContainer up to the UNGROUP step (FlattenAttributeGroups)
+    or up to the FLATTEN step: the element attrs of the classes of r0, r1, … (raw ids)"""
+    from xsdata.codegen.container import ClassContainer, Steps
+    from xsdata.codegen.mappers.schema import SchemaMapper
+    from xsdata.codegen.parsers.schema import SchemaParser
+    from xsdata.models.config import GeneratorConfig
+    from xsdata.models.xsd import Schema
+
+    schema = SchemaParser(location="mem.xsd").from_bytes(xsd.encode(), Schema)
+    container = ClassContainer(GeneratorConfig())
+    container.extend(SchemaMapper.map(schema))
+    container.validate_classes()
+    container.process_classes(Steps.UNGROUP)
+    container.remove_groups()
+    if upto == "flatten":
+        container.process_classes(Steps.FLATTEN)
+    roots = sorted((c for c in container if c.name[:1] == "r" and c.name[1:].isdigit()), key=lambda c: int(c.name[1:]))
+    return [[export_attr(a) for a in c.attrs if a.is_element] for c in roots]
+
+
+def real_calc_classes(classes):
+    """one CalculateAttributePaths handler (as the container holds one) over all the classes in order"""
+    from xsdata.codegen.handlers.calculate_attribute_paths import CalculateAttributePaths
+
+    handler = CalculateAttributePaths()
+    out = []
+    for sites in classes:
+        target = build_class(sites)
+        handler.process(target)
+        out.append([export_attr(a) for a in target.attrs])
+    return out
+
+
+# --------------------------------------------------------------------------
 # real sites
 # --------------------------------------------------------------------------
 def renumber(sites):
